@@ -255,6 +255,32 @@ pub broadcast proof fn lemma_prefixes_add_push_fronts_b<T>(ds: Seq<VectorDiff<T>
     assert(mapped =~= push_fronts(unpush(mapped)));
     lemma_prefixes_add_push_fronts(ds, unpush(mapped), s, b);
 }
+// a queue of diffs seen from its front: the first is applied first (apply_all / all_applicable / all_emittable recurse from the back)
+pub proof fn lemma_queue_front<T>(q: Seq<VectorDiff<T>>, d: VectorDiff<T>, rest: Seq<VectorDiff<T>>, v: Seq<T>)
+    requires q =~= seq![d] + rest
+    ensures apply_all(q, v) == apply_all(rest, apply(d, v)),
+        all_emittable(q, v) == (emittable(d, v) && all_emittable(rest, apply(d, v))),
+        all_applicable(q, v) == (applicable(d, v) && all_applicable(rest, apply(d, v)))
+    decreases rest.len()
+{
+    let e = Seq::<VectorDiff<T>>::empty();
+    let v1 = apply(d, v);
+    assert(apply_all(q, v) == apply(q.last(), apply_all(q.drop_last(), v)));
+    assert(all_emittable(q, v) == (all_emittable(q.drop_last(), v) && emittable(q.last(), apply_all(q.drop_last(), v))));
+    assert(all_applicable(q, v) == (all_applicable(q.drop_last(), v) && applicable(q.last(), apply_all(q.drop_last(), v))));
+    if rest.len() == 0 {
+        assert(q.drop_last() =~= e);
+        assert(q.last() == d);
+        assert(apply_all(e, v) == v && all_emittable(e, v) && all_applicable(e, v));
+        assert(apply_all(rest, v1) == v1 && all_emittable(rest, v1) && all_applicable(rest, v1));
+    } else {
+        lemma_queue_front(q.drop_last(), d, rest.drop_last(), v);
+        assert(q.last() == rest.last());
+        assert(apply_all(rest, v1) == apply(rest.last(), apply_all(rest.drop_last(), v1)));
+        assert(all_emittable(rest, v1) == (all_emittable(rest.drop_last(), v1) && emittable(rest.last(), apply_all(rest.drop_last(), v1))));
+        assert(all_applicable(rest, v1) == (all_applicable(rest.drop_last(), v1) && applicable(rest.last(), apply_all(rest.drop_last(), v1))));
+    }
+}
 pub broadcast group diff_lemmas {
     lemma_apply_len1, lemma_applicable_len1, lemma_emittable_len1, lemma_push_fronts_only, lemma_push_fronts_only_c, lemma_push_fronts_only_e,
     lemma_prefixes_rep_pop_front, lemma_prefixes_rep_pop_back, lemma_prefixes_add_push_fronts_b,
